@@ -2,7 +2,7 @@
 import ast
 import z3
 
-from .engine import NDArr, Builtin, Namespace, Unsupported, is_z3, z3_of, num_pair, is_number, Obj, NotImplementedVal
+from .engine import NDArr, Builtin, Namespace, Unsupported, is_z3, z3_of, num_pair, is_number, Obj, NotImplementedVal, NpScalar, unwrap
 from .source import BuiltinClass
 
 Ln = z3.Function('Ln', z3.RealSort(), z3.RealSort())
@@ -136,6 +136,8 @@ def np_ones_like(I, a, k):
 
 def np_array(I, a, k):
     v = a[0]
+    if isinstance(v, (list, tuple)):
+        v = type(v)(unwrap(x) for x in v)
     if isinstance(v, NDArr):
         return NDArr(v.shape, v.items, v.dtype)
     if isinstance(v, (list, tuple)):
@@ -359,7 +361,7 @@ def nd_setitem(I, v, idx, val):
 
 def nd_iter(I, v):
     if len(v.shape) == 1:
-        return iter(list(v.items))
+        return iter([x if isinstance(x, (bool, Obj)) else NpScalar(x) for x in v.items])
     if len(v.shape) == 2:
         r, c = v.shape
         return iter([NDArr((c,), v.items[i * c:(i + 1) * c]) for i in range(r)])
@@ -416,11 +418,11 @@ def namespace():
         'ones_like': Builtin('np.ones_like', np_ones_like), 'array': Builtin('np.array', np_array),
         'logical_not': Builtin('np.logical_not', np_logical_not), 'logical_or': Builtin('np.logical_or', np_logical_or),
         'select': Builtin('np.select', np_select), 'transpose': Builtin('np.transpose', np_transpose),
-        'dot': Builtin('np.dot', np_dot), 'ndarray': nd, 'number': number,
+        'dot': Builtin('np.dot', np_dot), 'ndarray': nd, 'number': number, 'float64_type': BuiltinClass('float64'),
         'logical_and': Builtin('np.logical_and', np_logical_and), 'where': Builtin('np.where', np_where),
         'isclose': Builtin('np.isclose', np_isclose), 'minimum': Builtin('np.minimum', np_minmax(True)),
         'maximum': Builtin('np.maximum', np_minmax(False)), 'absolute': Builtin('np.absolute', np_abs),
         'round': Builtin('np.round', lambda I, a, k: nd_attr(I, a[0], 'round').fn(I, [], {}) if isinstance(a[0], NDArr) else round_half_even(z3_of(a[0]))),
-        'float64': Builtin('np.float64', lambda I, a, k: a[0]),
+        'float64': Builtin('np.float64', lambda I, a, k: NpScalar(a[0])),
     }
     return Namespace('numpy', m)
